@@ -21,6 +21,13 @@ var cfg vh.Config
 var rep *vh.Report
 var cases *vh.Cases
 
+// Version and LockTime of the transactions built next (the fields Sort must carry over unchanged).
+var curVersion int32 = 2
+var curLockTime uint32 = 77
+
+var versions = []int32{2, 1, 0, -1, math.MaxInt32, math.MinInt32}
+var lockTimes = []uint32{77, 0, 499999999, 500000000, 0x7fffffff, 0x80000000, 0xffffffff}
+
 type inEl struct {
 	Hash   [32]byte
 	Index  uint32
@@ -59,13 +66,13 @@ func txJSON(ins []inEl, outs []outEl) map[string]interface{} {
 	for _, e := range outs {
 		b = append(b, e.json())
 	}
-	return map[string]interface{}{"version": 2, "lock_time": 77, "inputs": a, "outputs": b}
+	return map[string]interface{}{"version": curVersion, "lock_time": curLockTime, "inputs": a, "outputs": b}
 }
 
 // build makes a transaction out of fresh objects and fresh buffers.
 func build(ins []inEl, outs []outEl) *wire.MsgTx {
-	tx := wire.NewMsgTx(2)
-	tx.LockTime = 77
+	tx := wire.NewMsgTx(curVersion)
+	tx.LockTime = curLockTime
 	for _, e := range ins {
 		h := chainhash.Hash(e.Hash)
 		ti := wire.NewTxIn(wire.NewOutPoint(&h, e.Index), append([]byte(nil), e.Script...))
@@ -486,6 +493,82 @@ func runTx1(ins []inEl, outs []outEl, corr bool, replay map[string]interface{}) 
 	}
 }
 
+// ---------- the same objects holding other contents (nothing may be remembered between calls) ----------
+// runReuse builds a transaction from (ins, outs), runs IsSorted / Sort / InPlaceSort on it, then stores
+// (ins2, outs2) into the very same TxIn / TxOut objects and requires the three functions to answer for
+// the contents the objects hold now.
+func runReuse(ins, ins2 []inEl, outs, outs2 []outEl) {
+	if len(ins) != len(ins2) || len(outs) != len(outs2) {
+		panic("runReuse: lengths differ")
+	}
+	replay := map[string]interface{}{"first": txJSON(ins, outs), "then_the_same_objects_hold": txJSON(ins2, outs2)}
+	if p, msg := vh.Catch(func() { runReuse1(ins, ins2, outs, outs2, replay) }); p {
+		replay["panic"] = msg
+		rep.Violate("C18:panic", "txsort panicked", replay)
+	}
+}
+
+func multisetEq(a, b []string) bool {
+	return strings.Join(sortedStrings(a), ";") == strings.Join(sortedStrings(b), ";")
+}
+
+func runReuse1(ins, ins2 []inEl, outs, outs2 []outEl, replay map[string]interface{}) {
+	tx := build(ins, outs)
+	inObjs := append([]*wire.TxIn(nil), tx.TxIn...)
+	outObjs := append([]*wire.TxOut(nil), tx.TxOut...)
+	txsort.IsSorted(tx)
+	txsort.Sort(tx)
+	txsort.InPlaceSort(tx)
+	// object k now holds element k of the second transaction, and the slices are in the original object order
+	for k, o := range inObjs {
+		e := ins2[k]
+		o.PreviousOutPoint.Hash = chainhash.Hash(e.Hash)
+		o.PreviousOutPoint.Index = e.Index
+		o.SignatureScript = append([]byte(nil), e.Script...)
+		o.Sequence = e.Seq
+		tx.TxIn[k] = o
+	}
+	for k, o := range outObjs {
+		e := outs2[k]
+		o.Value = e.Value
+		o.PkScript = append([]byte(nil), e.Script...)
+		o.TokenData = e.Tok
+		o.TokenData.Commitment = append([]byte(nil), e.Tok.Commitment...)
+		tx.TxOut[k] = o
+	}
+	rep.Count("reuse", snapshot(tx)+"<-"+fmt.Sprint(len(ins)), len(ins)+len(outs) >= 2)
+	rep.Histogram["tx_on_reused_objects"]++
+	want := refOrderedIn(ins2) && refOrderedOut(outs2)
+	if got := txsort.IsSorted(tx); got != want {
+		replay["IsSorted"], replay["in_order"] = got, want
+		rep.Violate("C18:reuse:issorted", "IsSorted answers for contents the objects held during an earlier call", replay)
+	}
+	strs := func(a []inEl, b []outEl) (x, y []string) {
+		for _, e := range a {
+			x = append(x, e.str())
+		}
+		for _, e := range b {
+			y = append(y, e.str())
+		}
+		return
+	}
+	wi, wo := strs(ins2, outs2)
+	s := txsort.Sort(tx)
+	sIn, sOut := elemsOf(s)
+	gi, go2 := strs(sIn, sOut)
+	if !multisetEq(gi, wi) || !multisetEq(go2, wo) || !refOrderedIn(sIn) || !refOrderedOut(sOut) {
+		replay["sorted"] = txJSON(sIn, sOut)
+		rep.Violate("C18:reuse:sort", "Sort of objects seen before is not the BIP69-ordered permutation of their present contents", replay)
+	}
+	txsort.InPlaceSort(tx)
+	cIn, cOut := elemsOf(tx)
+	gi, go2 = strs(cIn, cOut)
+	if !multisetEq(gi, wi) || !multisetEq(go2, wo) || !refOrderedIn(cIn) || !refOrderedOut(cOut) {
+		replay["in_place"] = txJSON(cIn, cOut)
+		rep.Violate("C18:reuse:inplace", "InPlaceSort of objects seen before is not the BIP69-ordered permutation of their present contents", replay)
+	}
+}
+
 // ---------- generators ----------
 func hashWith(pos []int, val []byte) [32]byte {
 	var h [32]byte
@@ -533,8 +616,44 @@ func randHash(r *vh.RNG, pool [][32]byte) [32]byte {
 var amounts = []int64{0, 1, 2, -1, math.MaxInt64, math.MinInt64, 2100000000000000, 546, 255, 256, 1 << 32, -(1 << 32)}
 var scripts = [][]byte{{}, {0}, {0, 0}, {0, 1}, {1}, {0x7f}, {0x80}, {0xff}, {0x76, 0xa9, 0x14}, {0x76, 0xa9}, {0x76, 0xa9, 0x14, 0x00}, {0xa9, 0x14}}
 
+// standard output script shapes around a payload
+func p2pkh(h []byte) []byte { return append(append([]byte{0x76, 0xa9, 0x14}, h[:20]...), 0x88, 0xac) }
+func p2sh(h []byte) []byte  { return append(append([]byte{0xa9, 0x14}, h[:20]...), 0x87) }
+func p2sh32(h []byte) []byte { return append(append([]byte{0xaa, 0x20}, h[:32]...), 0x87) }
+func p2pk(h []byte) []byte  { return append(append([]byte{0x21, 0x02 + h[32]&1}, h[:32]...), 0xac) }
+func opReturn(h []byte, n int) []byte {
+	return append([]byte{0x6a, byte(n)}, h[:n]...)
+}
+func templateScript(r *vh.RNG) []byte {
+	h := r.Bytes(40)
+	switch r.Intn(8) { // payloads with extreme first / last bytes
+	case 0:
+		h[0] = 0
+	case 1:
+		h[0] = 0xff
+	case 2:
+		h[19] = 0
+	case 3:
+		h[19] = 0xff
+	}
+	switch r.Intn(6) {
+	case 0, 1:
+		return p2pkh(h)
+	case 2:
+		return p2sh(h)
+	case 3:
+		return p2sh32(h)
+	case 4:
+		return p2pk(h)
+	default:
+		return opReturn(h, r.Intn(41))
+	}
+}
+
 func randScript(r *vh.RNG) []byte {
-	switch r.Intn(3) {
+	switch r.Intn(4) {
+	case 3:
+		return templateScript(r)
 	case 0:
 		return vh.Pick(r, scripts)
 	case 1: // extension / truncation of a pool script
@@ -564,7 +683,7 @@ func permute[T any](l []T, f func([]T)) {
 func main() {
 	cfg = vh.ParseFlags("C18")
 	rep = vh.NewReport(cfg)
-	rep.Rule = "comparator pairs over a structured hash/amount/script pool (observed through IsSorted on two-element transactions); all tuples of <= 4 and all permutations of random multisets of 5..6 inputs/outputs over small key alphabets with ties; random transactions up to hundreds of inputs/outputs with few distinct keys; a comparator pair is non-trivial when the keys differ, a transaction when it has >= 2 elements and is out of order or holds unequal elements with equal keys; distinct by content"
+	rep.Rule = "comparator pairs over a structured hash/amount/script pool (observed through IsSorted on two-element transactions); all tuples of <= 4 and all permutations of random multisets of 5..6 inputs/outputs over small key alphabets with ties; txids differing in one byte at every position and in two bytes that disagree at every pair of positions; amounts next to each other at every binary size and sign; scripts equal up to every position of the usual lengths and standard script shapes; random transactions up to hundreds of inputs/outputs with few distinct keys; the same TxIn/TxOut objects holding other contents on a later call; a comparator pair is non-trivial when the keys differ, a transaction when it has >= 2 elements and is out of order or holds unequal elements with equal keys; distinct by content"
 	cases = vh.NewCases(cfg, "Run.Run_C18", 300)
 	rng := vh.NewRNG(cfg.Seed)
 	wide := cfg.Search || cfg.Thorough()
@@ -621,6 +740,123 @@ func main() {
 			runTx([]inEl{b, c, a}, nil, rep3 == 1)
 			runTx([]inEl{a, c, b}, nil, false)
 			runTx([]inEl{a, b}, nil, false)
+			runReuse([]inEl{a, b}, []inEl{b, a}, nil, nil)
+		}
+	}
+	// txids that differ in exactly two bytes which disagree about the order, for every pair of byte
+	// positions p < q (the more significant position q must decide), on a zero and on a random base;
+	// the indices are ordered the other way round as well
+	for p := 0; p < 32; p++ {
+		for q := p + 1; q < 32; q++ {
+			for rep2 := 0; rep2 < 2; rep2++ {
+				var base [32]byte
+				if rep2 == 1 {
+					copy(base[:], r.Bytes(32))
+				}
+				ha, hb := base, base
+				x, y := byte(r.Intn(255)), byte(r.Intn(255))
+				ha[p], hb[p] = x+1, x // a wins on the less significant byte
+				ha[q], hb[q] = y, y+1 // b wins on the more significant byte
+				a := inEl{ha, 1, nil, 0}
+				b := inEl{hb, 0, nil, 0}
+				rep.Histogram["in_less_two_positions_disagree"] += 2
+				corr := !cfg.Search && (p*32+q+rep2)%9 == 0
+				lessIn(a, b, corr)
+				lessIn(b, a, corr)
+				if (p+q+rep2)%4 == 0 {
+					runTx([]inEl{b, a, {ha, 0, nil, 0}}, nil, false)
+					runReuse([]inEl{b, a}, []inEl{a, b}, nil, nil)
+				}
+			}
+		}
+	}
+	// amounts next to each other at every binary size and sign (a comparison that loses low bits, wraps
+	// or compares as unsigned shows only here), with the scripts ordered the other way round
+	for k := 0; k < 64; k++ {
+		for sgn := 0; sgn < 2; sgn++ {
+			for rep2 := 0; rep2 < 3; rep2++ {
+				var v int64
+				switch {
+				case k == 63 && sgn == 0:
+					v = math.MaxInt64 - int64(rep2)
+				case k == 63:
+					v = math.MinInt64 + 1 + int64(rep2)
+				default:
+					v = int64(1) << uint(k)
+					if rep2 == 1 {
+						v += int64(r.U64() & uint64(v-1) &^ 1) // random lower bits, still even
+					} else if rep2 == 2 {
+						v += v - 2 + int64(k&1) // all ones below, or all ones but the last bit
+						if v < 0 {
+							v = math.MaxInt64 - 1
+						}
+					}
+					if sgn == 1 {
+						v = -v
+					}
+				}
+				lo := outEl{Value: v - 1, Script: []byte{0xff, 0xff}}
+				hi := outEl{Value: v, Script: []byte{}}
+				rep.Histogram["out_less_adjacent_amounts"] += 2
+				corr := !cfg.Search && (k+sgn+rep2)%6 == 0
+				lessOut(lo, hi, corr)
+				lessOut(hi, lo, corr)
+				if rep2 == 0 {
+					runTx(nil, []outEl{hi, lo, {Value: v - 1, Script: []byte{0xff}}}, k%8 == 0 && !cfg.Search)
+				}
+			}
+		}
+	}
+	// scripts with a long common part: equal up to position pos (every position of the standard script
+	// lengths and around 64 / 76 / 256), then a differing byte, then tails ordered the other way round;
+	// and a script against its own extension
+	for _, n := range []int{2, 8, 9, 20, 22, 23, 24, 25, 26, 32, 33, 34, 35, 36, 64, 65, 67, 76, 77, 255, 256, 257, 520} {
+		for pos := 0; pos < n; pos++ {
+			if n > 40 && pos > 3 && pos < n-3 && pos%16 != 0 && pos%16 != 15 {
+				continue
+			}
+			base := r.Bytes(n)
+			sa := append([]byte(nil), base...)
+			sb := append([]byte(nil), base...)
+			x := byte(r.Intn(255))
+			sa[pos], sb[pos] = x, x+1
+			for t := pos + 1; t < n; t++ { // everything after pos says the opposite
+				sa[t], sb[t] = 0xff, 0
+			}
+			v := vh.Pick(r, amounts)
+			a := outEl{Value: v, Script: sa}
+			b := outEl{Value: v, Script: sb}
+			rep.Histogram["out_less_long_common_prefix"] += 2
+			corr := !cfg.Search && (n+pos)%7 == 0 && n <= 80
+			lessOut(a, b, corr)
+			lessOut(b, a, corr)
+			if pos == n-1 { // proper prefix against the full script, and against a shorter script that is larger
+				pre := outEl{Value: v, Script: base[:n-1]}
+				full := outEl{Value: v, Script: base}
+				lessOut(pre, full, corr)
+				lessOut(full, pre, corr)
+				runTx(nil, []outEl{b, full, a, pre}, false)
+			}
+		}
+	}
+	// standard script shapes (P2PKH, P2SH, P2SH32, P2PK, OP_RETURN) with random payloads for one amount
+	for i := 0; i < cfg.Scale(400, 6000); i++ {
+		v := vh.Pick(r, amounts)
+		a := outEl{Value: v, Script: templateScript(r)}
+		b := outEl{Value: v, Script: templateScript(r)}
+		if i%4 == 0 { // same shape, payload differing in one byte
+			b.Script = append([]byte(nil), a.Script...)
+			if len(b.Script) > 0 {
+				b.Script[r.Intn(len(b.Script))] ^= 1 << uint(r.Intn(8))
+			}
+		}
+		if i%9 == 0 {
+			b.Script = randScript(r)
+		}
+		rep.Histogram["out_less_standard_scripts"]++
+		lessOut(a, b, i%6 == 0 && !cfg.Search)
+		if i%5 == 0 {
+			runTx(nil, []outEl{a, b, {Value: v, Script: templateScript(r)}, {Value: v, Script: templateScript(r)}}, i%40 == 0 && !cfg.Search)
 		}
 	}
 	for i, va := range amounts {
@@ -707,6 +943,15 @@ func main() {
 		permute(mo, func(p []outEl) {
 			runTx(fixedIn, append([]outEl(nil), p...), r.Intn(cfg.Scale(400, 700)) == 0 && !cfg.Search)
 		})
+		// the same objects holding the multiset in reverse, then rotated
+		revI, revO := make([]inEl, n), make([]outEl, n)
+		rotI, rotO := make([]inEl, n), make([]outEl, n)
+		for i := 0; i < n; i++ {
+			revI[i], revO[i] = mi[n-1-i], mo[n-1-i]
+			rotI[i], rotO[i] = mi[(i+1)%n], mo[(i+2)%n]
+		}
+		runReuse(mi, revI, mo, revO)
+		runReuse(mi, rotI, mo, rotO)
 	}
 	// inputs in order, outputs not (and the reverse): IsSorted must look at both
 	for i := 0; i < 40; i++ {
@@ -760,6 +1005,9 @@ func main() {
 			}
 			if r.Intn(8) == 0 {
 				outs[k].Tok = wire.TokenData{Amount: uint64(r.Intn(3)), BitField: 0x10, Commitment: r.Bytes(r.Intn(3))}
+				if r.Bool() {
+					copy(outs[k].Tok.CategoryID[:], r.Bytes(32))
+				}
 			}
 		}
 		if i%3 == 0 { // duplicated elements (full ties)
@@ -781,7 +1029,37 @@ func main() {
 			}
 		}
 		corr := !cfg.Search && ((!large && i%2 == 0) || (large && i%50 == 0 && ni+no <= 450))
+		if i%3 == 1 { // other Version / LockTime values to be carried over
+			curVersion, curLockTime = vh.Pick(r, versions), vh.Pick(r, lockTimes)
+		}
 		runTx(ins, outs, corr)
+		if !large && ni+no >= 2 {
+			// the same objects holding the elements in another arrangement (and partly other elements)
+			ins2 := append([]inEl(nil), ins...)
+			outs2 := append([]outEl(nil), outs...)
+			for k := len(ins2) - 1; k > 0; k-- {
+				j := r.Intn(k + 1)
+				ins2[k], ins2[j] = ins2[j], ins2[k]
+			}
+			for k := len(outs2) - 1; k > 0; k-- {
+				j := r.Intn(k + 1)
+				outs2[k], outs2[j] = outs2[j], outs2[k]
+			}
+			if i%3 == 0 {
+				for k := range ins2 {
+					if r.Intn(3) == 0 {
+						ins2[k].Hash = randHash(r, pool)
+					}
+				}
+				for k := range outs2 {
+					if r.Intn(3) == 0 {
+						outs2[k].Value, outs2[k].Script = vh.Pick(r, amounts), randScript(r)
+					}
+				}
+			}
+			runReuse(ins, ins2, outs, outs2)
+		}
+		curVersion, curLockTime = 2, 77
 	}
 	_ = wide
 
